@@ -790,7 +790,7 @@ func Spec() *mon.Spec {
 			"loop.go's comment that the first redraw carries the full flag is not asserted (the property does not state it; the App requests it explicitly)",
 			"how many already-buffered events may still be handled after a Return from another goroutine is not specified and not asserted; only a handler-issued Return must stop event handling",
 		},
-		Phases: []mon.Phase{ph("gmp1", 1, 2000, 50000), ph("gmp4", 4, 2000, 50000), ph("gmp16", 16, 2000, 50000)},
+		Phases: []mon.Phase{ph("gmp1", 1, 2000, 20000), ph("gmp4", 4, 2000, 20000), ph("gmp16", 16, 2000, 20000)},
 		Floors: map[string]int{
 			"distinct_nontrivial": 1500, "interleavings": 1800, "callbacks": 150000, "handled_events": 120000,
 			"idle_censuses": 2500, "redraw_requests_checked_at_idle": 100000, "full_requests_checked_at_idle": 35000,
